@@ -19,6 +19,8 @@ type fakeDocker struct {
 	Inventory []types.Container
 	Logs      map[string][]byte // container id -> multiplexed stream
 	ListErr   error
+	ListErrAt map[int]bool // fail the n-th ContainerList call (0-based)
+	listCalls int
 	OpenErr   map[string]error // container id -> error from ContainerLogs
 	ReadFail  map[string]int   // container id -> fail reads after this many bytes
 	Sizes     []int            // fragmentation of every stream
@@ -38,8 +40,12 @@ var errList = errors.New("injected list error")
 var errOpen = errors.New("injected open error")
 
 func (f *fakeDocker) ContainerList(ctx context.Context, o apicontainer.ListOptions) ([]types.Container, error) {
-	if f.ListErr != nil {
-		return nil, f.ListErr
+	f.mu.Lock()
+	n := f.listCalls
+	f.listCalls++
+	f.mu.Unlock()
+	if f.ListErr != nil || f.ListErrAt[n] {
+		return nil, errList
 	}
 	return f.Inventory, nil
 }
